@@ -112,6 +112,24 @@ fn templates() -> Vec<(&'static str, Tpl)> {
         ("count-where", Tpl::Raw("MATCH (v1:L0) WHERE v1.k0 = $p0 RETURN count(v1) AS c0".into())),
         ("in-list", Tpl::Raw("MATCH (v1:L0) WHERE v1.k0 IN $p0 RETURN v1.k0 AS c0".into())),
         ("string-fn", Tpl::Raw("RETURN toString($p0) AS c0, size([$p0, $p1]) AS c1".into())),
+        // --- round 2: positions a small edit of substitute_expr / substitute_params could drop
+        ("fn-args", Tpl::Raw("RETURN coalesce($p0, $p1) AS c0, coalesce(null, $p0) AS c1, head([$p0]) AS c2".into())),
+        ("fn-string", Tpl::Raw("MATCH (v1:L0) WHERE v1.k1 STARTS WITH $p0 OR v1.k1 CONTAINS $p0 RETURN v1.k1 AS c0".into())),
+        ("list-slice", Tpl::Raw("RETURN [$p0, 2, $p1, 4][1..3] AS c0, $p0 AS c1".into())),
+        ("nested-3", Tpl::Raw("RETURN [{k0: [$p0, {k1: $p1}]}] AS c0".into())),
+        ("param-map-access", Tpl::Raw("RETURN $p0.k1 AS c0, $p0.k2 AS c1".into())),
+        ("not-neg", Tpl::Model(St { cls: vec![], ret: Some(vec![Ex::Un("not", bx(bin("eq", p(0), p(1)))), Ex::Un("neg", bx(p(1)))]) })),
+        ("where-and-return", Tpl::Model(St { cls: m0(vec![Cl::Filter(bin("or", bin("eq", Ex::Prop(1, 0), p(0)), bin("eq", Ex::Prop(1, 0), p(1))))]), ret: Some(vec![Ex::Prop(1, 0), p(0), Ex::List(vec![p(1)])]) })),
+        ("second-return-item", Tpl::Model(St { cls: m0(vec![]), ret: Some(vec![Ex::Prop(1, 0), int(1), p(0)]) })),
+        ("two-with-stages", Tpl::Raw("MATCH (v1:L0) WITH v1, $p0 AS v4 WITH v1, v4, $p1 AS v5 WHERE v1.k0 = v5 RETURN v4 AS c0, v5 AS c1".into())),
+        ("second-set-item", Tpl::Model(St { cls: m0(vec![Cl::Set(vec![SetItem::Prop(1, 1, int(3)), SetItem::Prop(1, 2, p(0))])]), ret: Some(vec![Ex::Prop(1, 2)]) })),
+        ("set-then-where-earlier", Tpl::Model(St { cls: m0(vec![Cl::Filter(bin("eq", Ex::Prop(1, 0), p(1))), Cl::Set(vec![SetItem::Prop(1, 2, p(0))])]), ret: None })),
+        ("distinct", Tpl::Raw("MATCH (v1:L0) RETURN DISTINCT $p0 AS c0".into())),
+        ("aggregate-arg", Tpl::Raw("MATCH (v1:L0) RETURN count($p0) AS c0, collect($p0) AS c1".into())),
+        ("exists-sub", Tpl::Raw("MATCH (v1:L0) WHERE EXISTS { MATCH (v1)-[:T0]->(v3) WHERE v3.k0 = $p0 } RETURN v1.k0 AS c0".into())),
+        ("union-second-branch", Tpl::Raw("RETURN 1 AS c0 UNION ALL RETURN $p0 AS c0".into())),
+        ("unwind-then-where", Tpl::Raw("UNWIND [1, 2, 5] AS v0 WITH v0 WHERE v0 = $p0 RETURN v0 AS c0".into())),
+        ("remove-label-return", Tpl::Raw("MATCH (v1:L2) SET v1.k1 = $p0 REMOVE v1.k0 RETURN v1.k1 AS c0".into())),
     ]
 }
 
@@ -178,6 +196,30 @@ fn main() {
         let mut si = build_store();
         let oi = exec(&mut si, &text_i, None);
         let post_i = dump(&si);
+        // the read-only executor has its own call of substitute_params: compare it too
+        let is_read = match tpl {
+            Tpl::Model(st) => !st.cls.iter().any(|c| c.is_write()),
+            Tpl::Raw(t) => !["CREATE", "MERGE", " SET ", "DELETE", "REMOVE"].iter().any(|k| t.contains(k)),
+        };
+        if is_read {
+            let s0 = build_store();
+            let d0 = dump(&s0);
+            let rp = exec_read(&s0, &text_p, Some(&named));
+            let ri = exec_read(&s0, &text_i, None);
+            cases.push(Case {
+                name: format!("{}:read-executor", name),
+                obs_p: obs_text(&rp, &d0),
+                obs_i: obs_text(&ri, &d0),
+                ok_p: rp.rows.is_ok(),
+                changed: false,
+                rows_p: rp.rows.as_ref().map(|r| rows_text(r)).unwrap_or_default(),
+                text_p: text_p.clone(),
+                text_i: text_i.clone(),
+                term: None,
+                params: vec![(0, v0.clone()), (1, v1.clone())],
+                pre: d0,
+            });
+        }
         cases.push(Case {
             name: name.to_string(),
             obs_p: obs_text(&op, &post_p),
